@@ -24,8 +24,9 @@ type ReplayJob struct {
 	Entry  string
 	Script []ScriptVal
 	Tol    float64
-	Real   bool   // produced under the R-model
-	Path   string // where the script is (to be) stored
+	Real   bool                // produced under the R-model
+	Rename map[string][]string // repo file -> top-level functions renamed to <name>__verif_orig natively (same-package redirects)
+	Path   string              // where the script is (to be) stored
 }
 
 type ReplayResult struct {
@@ -120,6 +121,32 @@ func RunReplays(repo, root string, jobs []ReplayJob, race bool, timeout time.Dur
 			real := filepath.Join(scratch, fmt.Sprintf("d%d_%d_%s", di, k, filepath.Base(v)))
 			os.WriteFile(real, src, 0644)
 			replace[v] = real
+		}
+		// same-package redirects: rename the original function; a *_replayonly.go harness file defines the replacement
+		ri := 0
+		for _, j := range byDir[d] {
+			for file, fns := range j.Rename {
+				v := filepath.Join(repo, file)
+				if _, done := replace[v]; done {
+					continue
+				}
+				src, err := os.ReadFile(v)
+				if err != nil {
+					return nil, "", err
+				}
+				txt := string(src)
+				for _, fn := range fns {
+					re := regexp.MustCompile(`(?m)^func ` + regexp.QuoteMeta(fn) + `\(`)
+					if !re.MatchString(txt) {
+						return nil, "", fmt.Errorf("native redirect: func %s not found in %s", fn, file)
+					}
+					txt = re.ReplaceAllString(txt, "func "+fn+"__verif_orig(")
+				}
+				ri++
+				real := filepath.Join(scratch, fmt.Sprintf("d%d_rename%d.go", di, ri))
+				os.WriteFile(real, []byte(txt), 0644)
+				replace[v] = real
+			}
 		}
 		sort.Strings(entries)
 		var tb strings.Builder
